@@ -12,7 +12,9 @@ C15/C16 boundary: the scripted preparer never declares dependencies (it returns 
 from __future__ import annotations
 
 import asyncio
+import contextlib
 import copy
+import io
 import itertools
 
 from common import Ctx, Failure, cjson, cnat, copt, cstr, corpus_cases, shrink_list
@@ -88,14 +90,26 @@ def labels_ok(meta) -> bool:
     return isinstance(lab.get(ACTIVE_LABEL, "true"), str)
 
 
+class _RegClock:
+    """koreo.registry's clock: the same time line as the cache's, without consuming ticks"""
+    def __init__(self, clock):
+        self.clock = clock
+
+    def monotonic(self):
+        return float(self.clock.calls)
+
+
 class Runner:
     def __init__(self):
-        from koreo import cache, result
-        self.cache, self.result = cache, result
+        from koreo import cache, registry, result
+        self.cache, self.result, self.registry = cache, result, registry
         cache._reset_cache()
         self.clock = _Clock()
         self._saved_time = cache.time
+        self._saved_reg_time = registry.time
         cache.time = self.clock
+        registry.time = _RegClock(self.clock)
+        self.spec_given = []     # spec_given[n]: the spec the preparer's n-th invocation received
         self.log = []            # preparer invocations: [cls, name], oldest first
         self.made = {}           # id(object the preparer produced) -> ("ok"|"err", n)
         self.keep = []           # keep those objects alive so ids stay unique
@@ -105,6 +119,7 @@ class Runner:
 
     def close(self):
         self.cache.time = self._saved_time
+        self.registry.time = self._saved_reg_time
         self.cache._reset_cache()
 
     def _mk_preparer(self, cls):
@@ -118,6 +133,8 @@ class Runner:
                 if cache_key != off["name"]:
                     self.contract = self.contract or "preparer got a different name than the one offered"
             mode = spec.get("mode") if isinstance(spec, dict) else None
+            self.spec_given.append(copy.deepcopy(spec))
+            deps = spec.get("deps") if isinstance(spec, dict) else None
             if isinstance(spec, dict):
                 spec["scribble"] = n            # a preparer may mutate ITS copy (the tests' preparers do)
             R = self.result
@@ -127,6 +144,8 @@ class Runner:
                 obj = Prepared(n)
                 self.made[id(obj)] = ("ok", n)
                 self.keep.append(obj)
+                if deps is not None:       # (dependency streams only) declare watched resources
+                    return obj, [self.registry.Resource(resource_type=KCLS[c], name=nm) for c, nm in deps]
                 return obj, (None if mode == "ok" else [])
             obj = {"permfail": R.PermFail(message=str(n)), "retry": R.Retry(delay=5, message=str(n)),
                    "skip": R.Skip(message=str(n)), "depskip": R.DepSkip(message=str(n))}.get(mode) \
@@ -209,6 +228,10 @@ class Runner:
             elif k == "lookupsys":
                 r = c.get_resource_system_data_from_cache(KCLS[op[1]], op[2])
                 res = ["entry", self.entry(r)] if r is not None else ["none"]
+            elif k == "yield":               # (dependency streams only) let background re-preparers run
+                for _ in range(op[1]):
+                    await asyncio.sleep(0)
+                res = ["none"]
             else:
                 raise AssertionError(op)
         except AssertionError:
@@ -220,8 +243,9 @@ class Runner:
         return res, self.observe()
 
 
-def run_ops(ops):
-    """-> (trace [(op, result, obs)], runner-level contract violation or None, extra lookups per step)"""
+def run_ops(ops, deps=False):
+    """-> (trace [(op, result, obs)], runner-level contract violation or None, extra lookups per step, number of
+    re-prepare tasks at the end, the specs the preparer invocations were given)"""
     async def go():
         r = Runner()
         try:
@@ -242,9 +266,19 @@ def run_ops(ops):
                 tasks = len(_c._REPREPARE_TASKS)
             except Exception:  # noqa: BLE001
                 tasks = 0
-            return out, r.contract, looks, tasks
+            return out, r.contract, looks, tasks, list(r.spec_given)
         finally:
             r.close()
+    if deps:     # a failing background re-preparer makes koreo.cache log an error and print(); keep the output clean
+        import logging
+        lg = logging.getLogger("koreo.cache")
+        was = lg.disabled
+        lg.disabled = True
+        try:
+            with contextlib.redirect_stdout(io.StringIO()):
+                return asyncio.run(go())
+        finally:
+            lg.disabled = was
     return asyncio.run(go())
 
 
@@ -254,9 +288,13 @@ def meta_valid(meta):
     return bool(meta.get("name")) and bool(meta.get("resourceVersion")) and labels_ok(meta)
 
 
-def oracle(trace, contract, looks, tasks):
-    """(signature, description, index) if the property fails somewhere in this history, else None."""
-    exp = {}            # key -> (version, value identity)
+def oracle(trace, contract, looks, tasks, spec_given=(), deps=False):
+    """(signature, description, index) if the property fails somewhere in this history, else None.
+    deps=True: preparers declare watched resources, so (a) an offer may raise SubscriptionCycle AFTER having
+    prepared — only the cache contents afterwards are judged — and (b) background re-preparers may replace a
+    result while the loop runs (`yield` ops): the replacement must have been prepared from the spec of the most
+    recently offered version."""
+    exp = {}            # key -> (version, value identity, offered spec)
     offered = {}        # key -> versions this key has been cached under so far
     ncalls = 0
     for i, ((op, res, obs), lk) in enumerate(zip(trace, looks)):
@@ -282,10 +320,13 @@ def oracle(trace, contract, looks, tasks):
                     resync = key                 # outside the property: adopt whatever the cache now holds
                 else:
                     made = ["ok" if mode in ("ok", "ok_list") else "err", ncalls]
-                    if res != ["value"] + made:
+                    if res[0] == "raised" and deps:
+                        pass         # e.g. SubscriptionCycle while wiring the declared dependencies: acceptable;
+                        #              the offered version was prepared, so it is what lookups must now show
+                    elif res != ["value"] + made:
                         return ("offer new version: result is not what the preparer returned",
                                 f"offer returned {res}, the preparer produced {made}", i)
-                    exp[key] = (ver, made)
+                    exp[key] = (ver, made, op[3])
                     offered.setdefault(key, set()).add(ver)
         elif k == "offer":
             if new_calls and not (op[2].get("name") and op[2].get("resourceVersion")):
@@ -313,6 +354,8 @@ def oracle(trace, contract, looks, tasks):
                         del exp[key]
                     else:
                         resync = key             # by-name vs version-aware vs rejected: all accepted
+        elif k == "yield":
+            pass                                 # background re-preparers may run here (judged through the lookups)
         elif new_calls:
             return ("lookup prepared", "a lookup called the preparer", i)
         ncalls = len(obs["log"])
@@ -321,10 +364,19 @@ def oracle(trace, contract, looks, tasks):
             if got[1] is None:
                 exp.pop(resync, None)
             else:
-                exp[resync] = (got[1], got[0])
+                exp[resync] = (got[1], got[0], exp[resync][2] if resync in exp else None)
         # lookups return the result for the most recently offered version; deleted keys are gone
         for key, (ident, version) in lk.items():
             if key in exp:
+                if (deps and version == exp[key][0] and ident != exp[key][1] and ident[0] in ("ok", "err")
+                        and ident[1] < len(obs["log"]) and tuple(obs["log"][ident[1]]) == key):
+                    # re-prepared in the background: fine if it was built from the latest offered spec
+                    if exp[key][2] is not None and spec_given[ident[1]] != exp[key][2]:
+                        return ("re-prepared result is not for the most recently offered version",
+                                f"key {key} (version {version}) now holds a result prepared from spec "
+                                f"{spec_given[ident[1]]}, the most recently offered version's spec is {exp[key][2]}", i)
+                    exp[key] = (exp[key][0], ident, exp[key][2])
+                    continue
                 if version != exp[key][0] or ident != exp[key][1]:
                     what = "stale-version delete removed or changed" if k == "delete" and op[3] else "lookup differs from"
                     return (f"after {k}: {what} the latest offered version's result",
@@ -527,8 +579,8 @@ def nontrivial(trace):
 
 
 def handle(ctx: Ctx, ops, cases, terms, bucket):
-    trace, contract, looks, tasks = run_ops(ops)
-    bad = oracle(trace, contract, looks, tasks)
+    trace, contract, looks, tasks, given = run_ops(ops)
+    bad = oracle(trace, contract, looks, tasks, given)
     if tasks:
         ctx.fail(Failure(signature="harness: re-prepare task started", what="a re-prepare task exists although no "
                          "dependencies were declared (outside the C15 scope)", case={"ops": ops}))
@@ -557,10 +609,71 @@ def handle(ctx: Ctx, ops, cases, terms, bucket):
     terms.append(to_coq(trace))
 
 
+def handle_deps(ctx: Ctx, ops, bucket):
+    """a history whose preparers declare watched resources: judged by the oracle only (the background
+    re-prepare machinery is modelled by C16, not by Cache.v)"""
+    bad = oracle(*run_ops(ops, deps=True), deps=True)
+    if bad:
+        sig = "deps: " + bad[0]
+        seen = ctx.__dict__.setdefault("_c15_sigs", {})
+        seen[sig] = seen.get(sig, 0) + 1
+        small = ops
+        if seen[sig] == 1:
+            def still(xs):
+                b = oracle(*run_ops(xs, deps=True), deps=True)
+                return bool(b) and b[0] == bad[0]
+            small = shrink_list(ops[:bad[2] + 1], still)
+        tr = run_ops(small, deps=True)[0]
+        ctx.fail(Failure(signature=sig, what=bad[1], case={"ops": small, "deps": True},
+                         observed=[[op, res] for op, res, _ in tr][-6:]))
+    ctx.note_case({"ops": ops, "deps": True}, nontrivial=any(o[0] == "offer" and o[3].get("deps") for o in ops))
+    ctx.count(f"hist:{bucket}")
+    for op in ops:
+        ctx.count("deps-op:" + op[0])
+
+
+def rand_deps_history(rng, length):
+    """offers that declare dependencies (incl. ones closing a cycle between two cached resources), deletes,
+    lookups, and `yield`s that let the background re-preparers run; every offered spec is unique (tag)"""
+    names = NAMES[:rng.choice([2, 3])]
+    ops, tag = [], 0
+    for _ in range(length):
+        name = rng.choice(names)
+        x = rng.random()
+        if x < 0.55:
+            tag += 1
+            spec = {"mode": rng.choice(["ok", "ok", "ok", "ok", "permfail"]), "tag": tag}
+            y = rng.random()
+            if y < 0.75:
+                others = [n for n in names if n != name]
+                k = rng.choice([1, 1, 2])
+                deps = rng.sample(others, min(k, len(others)))
+                if rng.random() < 0.08:
+                    deps.append(name)                        # self-subscription: a cycle of length 1
+                spec["deps"] = [[0, d] for d in deps]
+            elif y < 0.85:
+                spec["deps"] = []
+            ops.append(["offer", 0, meta(name, rng.choice(VERSIONS)), spec, None])
+        elif x < 0.68:
+            ops.append(["delete", 0, name, rng.choice([None, None] + VERSIONS)])
+        elif x < 0.80:
+            ops.append(["lookup", 0, name])
+        else:
+            ops.append(["yield", rng.choice([1, 2, 4, 6])])
+    ops.append(["yield", 6])
+    return ops
+
+
 def run(ctx: Ctx):
     cases, terms = [], []
     for c in corpus_cases("C15"):
-        handle(ctx, c["ops"], cases, terms, "corpus")
+        if c.get("deps"):
+            handle_deps(ctx, c["ops"], "corpus-deps")
+        else:
+            handle(ctx, c["ops"], cases, terms, "corpus")
+    # dependency streams (oracle only)
+    for _ in range(600 if ctx.quick() else 8000):
+        handle_deps(ctx, rand_deps_history(ctx.rng, ctx.rng.choice([4, 6, 9, 12])), "random-deps")
     alpha = alphabet()
     depth = 3 if ctx.quick() else 4
     for seq in itertools.product(alpha, repeat=depth):
@@ -576,11 +689,12 @@ def run(ctx: Ctx):
 
 def replay(ctx: Ctx, data):
     case = data["case"] if "case" in data else data
-    trace, contract, looks, tasks = run_ops(case["ops"])
-    bad = oracle(trace, contract, looks, tasks)
+    deps = bool(case.get("deps"))
+    trace, contract, looks, tasks, given = run_ops(case["ops"], deps=deps)
+    bad = oracle(trace, contract, looks, tasks, given, deps=deps)
     if bad:
-        ctx.fail(Failure(signature=bad[0], what=bad[1], case=case,
+        ctx.fail(Failure(signature=("deps: " if deps else "") + bad[0], what=bad[1], case=case,
                          observed=[[op, res] for op, res, _ in trace][-6:]))
     ctx.note_case(case, True)
-    if ctx.model_ok:
+    if ctx.model_ok and not deps:
         ctx.correspond("replay", "Corr_C15", [case], [to_coq(trace)])
